@@ -68,8 +68,18 @@ impl Hook {
         };
 
         for function in functions {
-            let res = function(ax, mnemonic)?;
-            if ax.state.finished || res == HookResult::Handled {
+            let finished_before = ax.state.finished;
+            let res = match function(ax, mnemonic) {
+                Ok(res) => res,
+                Err(e) => {
+                    // A failing hook must not leave the processor in the "running" state, otherwise no hook could ever be registered again
+                    ax.hooks.running = false;
+                    return Err(e.into());
+                }
+            };
+            // The chain ends when a hook handled the event or stopped execution -- not merely because execution
+            // had already finished before (after-hooks of the last instruction all run)
+            if (ax.state.finished && !finished_before) || res == HookResult::Handled {
                 ax.hooks.running = false;
                 return Ok(());
             }
